@@ -465,6 +465,15 @@ class Interp(object):
                     if isinstance(node, ast.Call) and norm(node.func).split('.')[-1] == 'namedtuple' and node.args and isinstance(node.args[0], ast.Constant):
                         VALUE_CLASSES.add(name)
                         VALUE_CLASSES.add(str(node.args[0].value))
+                        fields = None
+                        if len(node.args) > 1:
+                            a = node.args[1]
+                            if isinstance(a, (ast.Tuple, ast.List)) and all(isinstance(x, ast.Constant) and isinstance(x.value, str) for x in a.elts):
+                                fields = [x.value for x in a.elts]
+                            elif isinstance(a, ast.Constant) and isinstance(a.value, str):
+                                fields = a.value.replace(',', ' ').split()
+                        if fields:
+                            NT_FIELDS[name] = fields
 
     # ------------------------------------------------------------------ hooks
     NOT_HANDLED = object()
@@ -1289,6 +1298,15 @@ class Interp(object):
             return callee.call(args, kwargs, self, frame, node)
         if isinstance(callee, PartialCall):
             return self.apply(text, callee.target, list(callee.pre_args) + list(args), kwargs, node, frame)
+        nt = text.split('.')[-1]
+        if nt in NT_FIELDS and not isinstance(callee, (FuncRef, ClassRef, Native, NativeMethod)) and '**' not in kwargs:
+            # construction of one of the repository's namedtuples: a value object with its fields
+            fields = NT_FIELDS[nt]
+            if len(args) <= len(fields) and all(k in fields for k in kwargs):
+                vals = dict(zip(fields, args))
+                vals.update(kwargs)
+                if len(vals) == len(fields):
+                    return Obj(nt, vals)
         if isinstance(callee, ClassRef):
             return self.construct(callee.name, args, kwargs, node, frame)
         if isinstance(callee, tuple) and callee and callee[0] == 'builtin':
@@ -2439,6 +2457,8 @@ def _ident_key(k):
 
 # classes whose instances compare by value (collections.namedtuple definitions found in the repository; filled by Interp.__init__)
 VALUE_CLASSES = set()
+# field names of those namedtuples: {binding name or type name: [fields]}
+NT_FIELDS = {}
 
 
 def _surely_equal(a, b):
